@@ -272,6 +272,12 @@ where
 	///
 	/// Returns the best polled chain tip relative to the previous best known tip and whether any
 	/// blocks were indeed connected or disconnected.
+	/// Read-only view of the header cache and chain tip for the /verif harness (C20).
+	#[cfg(feature = "verif_hooks")]
+	pub fn verif_cache_and_tip(&self) -> (&HeaderCache, &ValidatedBlockHeader) {
+		(&self.header_cache, &self.chain_tip)
+	}
+
 	pub async fn poll_best_tip(&mut self) -> BlockSourceResult<(ChainTip, bool)> {
 		let chain_tip = self.chain_poller.poll_chain_tip(self.chain_tip).await?;
 		let blocks_connected = match chain_tip {
